@@ -342,6 +342,11 @@ def _class_level_containers():
                     out.append((obj, attr, val, dict(val)))
                 elif isinstance(val, set):
                     out.append((obj, attr, val, set(val)))
+                elif (not isinstance(val, type) and hasattr(val, "__dict__") and str(getattr(type(val), "__module__", "")).startswith("rv")
+                      and not callable(val)):
+                    # an rv object kept as a class attribute (a shared sentinel, a descriptor with state):
+                    # its attribute dictionary is restored as well
+                    out.append((obj, attr, val, ("obj", dict(vars(val)))))
     return out
 
 
@@ -358,6 +363,12 @@ def _reset_globals():
         _CLASS_STATE = _class_level_containers()
         return
     for cls, attr, live, saved in _CLASS_STATE:
+        if isinstance(saved, tuple) and len(saved) == 2 and saved[0] == "obj":
+            d, want = vars(live), saved[1]
+            if len(d) != len(want) or any(k not in d or d[k] is not v for k, v in want.items()):
+                d.clear()
+                d.update(want)
+            continue
         if isinstance(live, list):
             if len(live) != len(saved) or any(a is not b for a, b in zip(live, saved)):
                 live[:] = saved
